@@ -536,6 +536,18 @@ def step (st : St) (op0 impl : String) : St × StepOut :=
   | ["survived"] =>
     -- after a framing fault on one session a fresh session must still authenticate (C19)
     (st, { model := "1", oracle := if impl == "1" then [] else ["node-wedged-after-wire-fault"], nontrivial := true })
+  | ["live"] =>
+    -- C18 on the LIVE session actors (not on `GetSessions`): of the sessions on which the peer proved
+    -- the cookie, at most ONE per peer name may be alive on the accepting node — the NodeServer's own
+    -- election on `ConnectionAuthenticated` stops every loser, also one whose (name, nonce) is shared
+    -- (legacy nonce 0 / repeated nonce) so that its own `CheckSession` cannot tell it lost
+    let aliveImpl : List Nat := (splitOnChar impl ',').filterMap (fun e => match colon e with
+      | [k, "1"] => k.toNat?
+      | _ => none)
+    let proved := st.sessions.filter (fun (k, s) => s.cfg.isServer && (s.oGood || s.oRelayed) && aliveImpl.contains k && s.st.name.isSome)
+    let dup := proved.any (fun (k, s) => proved.any (fun (k', s') => k != k' && (s.st.name.map (·.1)) == (s'.st.name.map (·.1))))
+    let m := ",".intercalate ((st.sessions.toArray.qsort (fun a b => a.1 < b.1)).toList.map (fun (k, s) => s!"{k}:{if s.st.stopped then 0 else 1}"))
+    (st, { model := if m == "" then "-" else m, oracle := if dup then ["two-live-links-to-one-peer"] else [], nontrivial := proved.length > 0 })
   | ["connects"] =>
     -- oracle: the node dials a peer-supplied address only if some session presented the right digest
     let orc := match impl.toNat? with
